@@ -17,22 +17,36 @@ import warnings
 import numpy as np
 
 ID = "C05"
-RULE = ("histories of 1-6 integer-valued float32 score arrays (2-D/3-D, extents 1..12 incl. non-multiples of the "
-        "distance, negative values; a tie-free stream run against the deterministic model and a tie-rich stream run "
-        "with the recorded answers of topk_indices/argsort) for each of the 5 strategies x (number, distance, margin, "
-        "score window); merges of real partial results (offsets, empty parts, nested, repeated); _postprocess on "
-        "exhaustive per-axis positions; end-to-end scan/scan_subsets vs the score map of the same run. "
+RULE = ("histories of 1-6 integer-valued score arrays (2-D/3-D, extents 1..12 incl. non-multiples of the "
+        "distance, negative values, number_of_peaks at / next to the voxel count; a tie-free stream run against the "
+        "deterministic model and a tie-rich stream run with the recorded answers of topk_indices/argsort) for each of the "
+        "5 strategies x (number, distance, margin, score window); half of them presented differently without changing "
+        "the case: float32/float64/int32/int64, C / Fortran / strided / reversed / offset views, read-only arrays, "
+        "numpy.memmap, ONE score buffer and ONE rotation buffer reused and overwritten for every call, rotation given "
+        "positionally / by keyword, constructor called with numpy scalars or with the keyword set scan() passes, "
+        "extents that differ from one submission to the next; spec-only streams: quarter-valued floats, floats at "
+        "absolute scales 1e-9..1e3 with offsets up to 5e4 (float64 differences below float32 resolution; thresholds tied "
+        "with a score, between two scores, exactly 0), PeakCallerRecursiveMasking with an explicit mask / rotation "
+        "look-up, more than 10 000 candidates, out-of-domain configurations; merges of real partial results (offsets as "
+        "int32/int64, empty parts, nested, repeated, raw parts as lists / float64 / int64 scores, scan()'s keyword set); "
+        "_postprocess on exhaustive per-axis positions (shapes as tuples / lists / int32 / int64 arrays, scan()'s "
+        "keywords, callers that hold no peak); end-to-end scan/scan_subsets vs the score map of the same run and of every "
+        "single rotation, serial and with rotations split over 2-3 jobs (more jobs than rotations), target splits 2/3 on "
+        "one or two axes, schedules (2,1)/(1,2)/(3,1), score windows. "
         "distinct = distinct (kind, strategy, cfg, shape, data-hash) tuples; histories whose final list is empty and "
         "arrays with a single voxel are not counted")
 ASSUMPTIONS = [
     "min_distance = 0 switches the distance filter off by design (filter_points_indices returns every index; "
     "PeakClustering relies on it): the separation clause is evaluated for min_distance >= 1 only",
-    "the numpy backend and batch_dims=None; RecursiveMasking with its default box mask",
+    "the numpy backend and batch_dims=None; RecursiveMasking with its default box mask in the model runs (an explicit "
+    "all-ones mask, identity rotation, rotation look-up in its documented form ids -> Euler angles, is run spec-only)",
     "PeakCallerScipy: skimage.feature.peak_local_max is an external oracle (its answer is fed to the model); the "
     "global-maximum clause is evaluated when a maximum lies farther than min_distance from every border and the "
     "array is not constant (peak_local_max uses the strict threshold image > image.min())",
-    "score values in correspondence runs are small integers stored as float32 (exact in both worlds); the end-to-end "
-    "run compares float scores at 1e-4 relative tolerance",
+    "score values in correspondence runs are small integers stored as float32/float64/int32/int64 (exact in both "
+    "worlds); float streams compare reported scores with the submitted array exactly (same dtype, no arithmetic); score "
+    "thresholds are representable in the dtype of the scores; the end-to-end run compares float scores at 1e-4 relative "
+    "tolerance",
     "boundary margin and score window are applied per submitted array, in that array's frame (as the code does)",
 ]
 TRUSTED = ["C05: numpy argpartition/argsort tie order and skimage peak_local_max enter the model as recorded oracles "
@@ -133,31 +147,139 @@ def _plm(arr, cfg):
         return []
 
 
+# --------------------------------------------------------------------------- presentation of inputs
+
+DTYPES = {"f4": np.float32, "f8": np.float64, "i4": np.int32, "i8": np.int64}
+LAYOUTS = ("C", "F", "strided", "rev", "offset", "ro", "memmap")
+_mm_count = [0]
+
+
+def _present(values, shape, lay="C", dt="f4"):
+    """the array handed to the API: same values, another memory layout / dtype (what a caller may legitimately pass:
+    Fortran order, a strided / reversed / offset view of a larger buffer, a read-only array, a numpy.memmap)"""
+    a = np.array(values, dtype=DTYPES[dt]).reshape(shape)
+    nd = a.ndim
+    if lay == "F":
+        return np.asfortranarray(a)
+    if lay == "strided":
+        big = np.full(tuple(2 * x for x in a.shape), 9, dtype=a.dtype)
+        v = big[(slice(None, None, 2),) * nd]
+        v[...] = a
+        return v
+    if lay == "rev":
+        return np.ascontiguousarray(a[(slice(None, None, -1),) * nd])[(slice(None, None, -1),) * nd]
+    if lay == "offset":
+        big = np.full(tuple(x + 3 for x in a.shape), 9, dtype=a.dtype)
+        v = big[tuple(slice(1 + (i % 2), 1 + (i % 2) + x) for i, x in enumerate(a.shape))]
+        v[...] = a
+        return v
+    if lay == "ro":
+        a.flags.writeable = False
+        return a
+    if lay == "memmap":
+        from pv import env
+        _mm_count[0] += 1
+        fn = os.path.join(env.scratch(), "c05_scores_%d_%d.mm" % (os.getpid(), _mm_count[0] % 4))
+        m = np.memmap(fn, dtype=a.dtype, mode="w+", shape=a.shape)
+        m[...] = a
+        m.flush()
+        del m
+        return np.memmap(fn, dtype=a.dtype, mode="r", shape=a.shape)
+    return a
+
+
+def _sub_shape(case, sub):
+    return tuple(sub.get("shape") or case["shape"])
+
+
+def _sub_array(case, sub):
+    """the submitted values as a plain C array of the submitted dtype (reference for the spec clauses)"""
+    return np.array(sub["data"], dtype=DTYPES[sub.get("dt", "f4")]).reshape(_sub_shape(case, sub))
+
+
+def _np_num(x, flt):
+    if x is None:
+        return None
+    if flt or isinstance(x, float):
+        return np.float32(x) if float(np.float32(x)) == float(x) else np.float64(x)
+    return np.int64(x)
+
+
+def _make_caller(case, shape):
+    """the constructor call: plain keywords, numpy scalars, or the keyword set `scan` passes to a callback class"""
+    cls = _classes()[case["strategy"]]
+    cfg = case["cfg"]
+    pres = case.get("pres") or {}
+    kw = _cfg_kwargs(cfg)
+    ctor = pres.get("ctor", "plain")
+    if ctor == "npint":
+        kw = dict(number_of_peaks=np.int64(cfg["n"]), min_distance=np.int64(cfg["md"]),
+                  min_boundary_distance=np.int32(cfg["mb"]), minimum_score=_np_num(cfg["lo"], case.get("float")),
+                  maximum_score=_np_num(cfg["hi"], case.get("float")))
+    elif ctor == "scan":
+        nd = len(shape)
+        kw.update(shape=tuple(shape), offset=np.array([7 + i for i in range(nd)]), thread_safe=bool(pres.get("ts")),
+                  fourier_shift=np.array([-(1 + i) for i in range(nd)]), convolution_mode="same",
+                  targetshape=tuple(shape), templateshape=tuple(2 for _ in shape), convolution_shape=tuple(shape),
+                  fast_shape=tuple(shape), indices=None, shared_memory_handler=None, only_unique_rotations=True)
+    return cls(**kw)
+
+
 # --------------------------------------------------------------------------- real runs
 
 def _real_history(case, record):
     """runs the real caller; returns (states after each call | 'raised:..', oracles per call, recs)"""
-    cls = _classes()[case["strategy"]]
-    cfg, shape = case["cfg"], tuple(case["shape"])
+    cfg = case["cfg"]
+    pres = case.get("pres") or {}
     states, orcs, contracts = [], [], []
     try:
-        pc = cls(**_cfg_kwargs(cfg))
+        pc = _make_caller(case, _sub_shape(case, case["subs"][0]) if case["subs"] else tuple(case["shape"]))
     except Exception as e:  # constructor rejects the configuration
         return ["raised:" + type(e).__name__], [], []
+    reuse = bool(pres.get("reuse"))
+    buf = rbuf = None
+    if reuse:
+        # what the matching loop does: ONE score buffer and ONE rotation buffer, overwritten for every rotation
+        dt0 = DTYPES[case["subs"][0].get("dt", "f4")] if case["subs"] else np.float32
+        buf = np.empty(max(int(np.prod(_sub_shape(case, sub))) for sub in case["subs"]) + 5, dtype=dt0)
     for sub in case["subs"]:
-        arr = np.array(sub["data"], dtype=np.float32).reshape(shape)
+        shape = _sub_shape(case, sub)
+        nd = len(shape)
+        if reuse:
+            arr = buf[2:2 + int(np.prod(shape))].reshape(shape)
+            arr[...] = np.array(sub["data"], dtype=buf.dtype).reshape(shape)
+            if rbuf is None:
+                rbuf = np.eye(nd)
+            rbuf[...] = _rotmat(nd, sub["rot"])
+            rot = rbuf
+        else:
+            arr = _present(sub["data"], shape, sub.get("lay", "C"), sub.get("dt", "f4"))
+            rot = _rotmat(nd, sub["rot"])
         orc = {}
         if case["strategy"] == "scipy":
-            orc["plm"] = _plm(arr, cfg)
+            orc["plm"] = _plm(np.array(arr), cfg)
+        kwargs = {}
+        if pres.get("mask"):
+            kwargs["mask"] = np.ones(tuple(pres["mask"][:nd]), dtype=np.float32)
+            if pres.get("rotation_space"):
+                # per-voxel rotation look-up in its documented form: ids -> Euler angles (3-D); 2-D: ids -> matrices
+                kwargs["rotation_space"] = np.zeros(shape, dtype=np.int64)
+                kwargs["rotation_mapping"] = {0: np.zeros(3) if nd == 3 else np.eye(nd)}
         with _Rec(record) as rec:
             try:
                 with warnings.catch_warnings():
                     warnings.simplefilter("ignore")
-                    pc(arr.copy(), _rotmat(len(shape), sub["rot"]))
+                    if pres.get("kw"):
+                        pc(arr, rotation_matrix=rot, **kwargs)
+                    else:
+                        pc(arr, rot, **kwargs)
             except Exception as e:
                 states.append("raised:" + type(e).__name__)
                 orcs.append(orc)
                 break
+        if reuse:
+            buf[...] = 5          # the caller's buffers are overwritten before the result is read
+            rbuf[...] = 3
         if record:
             tk = [t for t in rec.topk if t[2] is not None]
             if case["strategy"] == "sort" and tk:
@@ -180,7 +302,7 @@ def _real_history(case, record):
 def _model_history(ctx, case, orcs):
     subs = []
     for i, sub in enumerate(case["subs"]):
-        s = {"shape": case["shape"], "data": sub["data"], "rot": sub["rot"]}
+        s = {"shape": list(_sub_shape(case, sub)), "data": sub["data"], "rot": sub["rot"]}
         if i < len(orcs) and orcs[i]:
             s["orc"] = orcs[i]
         subs.append(s)
@@ -215,26 +337,34 @@ def _spec_list(ctx, label, inp, peaks, cfg, n_limit=True, sep=True):
 
 
 def _spec_history(ctx, case, nsubs, peaks):
-    """all clauses of the property on the list reported after the first `nsubs` calls"""
-    cfg, shape, st = case["cfg"], case["shape"], case["strategy"]
+    """all clauses of the property on the list reported after the first `nsubs` calls.  Every submission is judged in
+    its own frame (its own extents, dtype and rotation): a reported peak must be a voxel of SOME submitted array that
+    carries its score and rotation, inside that array's margin."""
+    cfg, st = case["cfg"], case["strategy"]
     inp = {"kind": "history", **case, "subs": case["subs"][:nsubs]}
     flt = case.get("float", False)
-    arrs = [(sub["rot"], np.array(sub["data"], dtype=np.float32 if flt else np.int64).reshape(shape)) for sub in case["subs"][:nsubs]]
-    inb = all(len(p[0]) == len(shape) and all(0 <= x < s for x, s in zip(p[0], shape)) for p in peaks)
+    val = (lambda x: float(x)) if flt else (lambda x: int(x))
+    arrs = [(sub["rot"], _sub_array(case, sub)) for sub in case["subs"][:nsubs]]
+    nd = len(case["shape"])
+
+    def inside(p, a):
+        return len(p[0]) == a.ndim and all(0 <= x < s for x, s in zip(p[0], a.shape))
+    inb = all(len(p[0]) == nd and any(inside(p, a) for _, a in arrs) for p in peaks)
     ctx.spec("every reported peak lies inside the scored volume", inp, inb, peaks[:12], key=f"{st}:inbounds")
     if not inb:
         return
-    ok = all(any(r == p[1] and (float(a[tuple(p[0])]) if flt else int(a[tuple(p[0])])) == p[2] for r, a in arrs) for p in peaks)
-    ctx.spec("reported score and rotation are the submitted ones at that translation", inp, ok, peaks[:12],
+    src = [[(r, a) for r, a in arrs if inside(p, a) and r == p[1] and val(a[tuple(p[0])]) == p[2]] for p in peaks]
+    ctx.spec("reported score and rotation are the submitted ones at that translation", inp, all(src), peaks[:12],
              key=f"{st}:score-rotation")
     lo, hi, mb = cfg["lo"], cfg["hi"], cfg["mb"]
     okw = all((lo is None or p[2] >= lo) and (hi is None or p[2] <= hi) for p in peaks)
     ctx.spec("reported scores lie in the configured score window", inp, okw, peaks[:12], key=f"{st}:window")
-    okm = all(all(mb <= x < s - mb for x, s in zip(p[0], shape)) for p in peaks)
-    ctx.spec("reported peaks keep the boundary margin", inp, okm, peaks[:12], key=f"{st}:margin")
+    if all(src):
+        okm = all(any(all(mb <= x < s - mb for x, s in zip(p[0], a.shape)) for _, a in sr) for p, sr in zip(peaks, src))
+        ctx.spec("reported peaks keep the boundary margin", inp, okm, peaks[:12], key=f"{st}:margin")
     _spec_list(ctx, st, inp, peaks, cfg)
     if lo is None and hi is None and mb == 0 and arrs:
-        M = max((float(a.max()) if flt else int(a.max())) for _, a in arrs)
+        M = max(val(a.max()) for _, a in arrs)
         applicable = True
         if st == "scipy":
             md = cfg["md"]
@@ -242,7 +372,7 @@ def _spec_history(ctx, case, nsubs, peaks):
             for _, a in arrs:
                 if a.max() == M and a.min() < M:
                     for idx in np.argwhere(a == M):
-                        if all(s > 1 for s in shape) and all(md < x < s - 1 - md for x, s in zip(idx, shape)):
+                        if all(s > 1 for s in a.shape) and all(md < x < s - 1 - md for x, s in zip(idx, a.shape)):
                             applicable = True
             if not applicable:
                 ctx.count("globalmax:scipy-not-applicable")
@@ -269,6 +399,8 @@ def _gen_cfg(rng, strategy, small=False):
     elif r < 0.33:
         lo = int(rng.integers(-8, 6))
         hi = lo + int(rng.integers(0, 12))
+    if lo is not None and rng.random() < 0.15:
+        n = 2 ** 63 - 1          # what scripts/postprocess.py passes together with --minimum_score (np.iinfo(int64).max)
     return {"n": n, "md": md, "mb": mb, "lo": lo, "hi": hi}
 
 
@@ -311,21 +443,39 @@ def _gen_data(rng, shape, nsub, ties):
     return out
 
 
-def _gen_case(rng, strategy, ties, small=False):
+def _gen_case(rng, strategy, ties, small=False, model=True, mixed=False):
     cfg = _gen_cfg(rng, strategy, small)
     shape = _gen_shape(rng, strategy, small)
     nsub = int(rng.choice([1, 1, 2, 3, 4, 6])) if not small else int(rng.choice([1, 2, 3]))
     if strategy == "recursive" and cfg["lo"] is not None and int(np.prod(shape)) > 150:
         shape = [min(s, 5) for s in shape]
-    data = _gen_data(rng, shape, nsub, ties)
+    if strategy == "recursive" and cfg["n"] == 1000 and model:
+        # the masking loop runs number_of_peaks times on non-negative data (masked voxels read 0 >= min - 1); the Lean
+        # model of that loop is quadratic - keep "more peaks asked for than voxels" but bounded (1000 stays in the
+        # spec-only streams)
+        cfg["n"] = int(rng.choice([40, 90]))
+    if rng.random() < 0.12:
+        # number_of_peaks exactly at / next to the number of voxels (top-k with k = size, k = size - 1)
+        cfg["n"] = max(1, int(np.prod(shape)) + int(rng.integers(-1, 2)))
     rots = [int(rng.integers(1, 4)) if rng.random() < 0.2 else i + 1 for i in range(nsub)]
+    if mixed and nsub > 1:
+        # every submission has its own extents (same rank): margins, tiles, windows are per submitted array
+        shapes = [shape] + [[max(1, min(12, s + int(rng.integers(-3, 4)))) for s in shape] for _ in range(nsub - 1)]
+        if strategy == "scipy":
+            shapes = [sh if any(x > 1 for x in sh) else [3] + sh[1:] for sh in shapes]
+        order = rng.permutation(nsub)
+        shapes = [shapes[int(i)] for i in order]
+        big = _gen_data(rng, [max(int(np.prod(sh)) for sh in shapes)], nsub, ties)
+        subs = [{"rot": r, "data": d[:int(np.prod(sh))], "shape": [int(x) for x in sh]} for r, d, sh in zip(rots, big, shapes)]
+        return {"strategy": strategy, "cfg": cfg, "shape": [int(x) for x in shapes[0]], "ties": bool(ties), "subs": subs}
+    data = _gen_data(rng, shape, nsub, ties)
     return {"strategy": strategy, "cfg": cfg, "shape": shape, "ties": bool(ties),
             "subs": [{"rot": r, "data": d} for r, d in zip(rots, data)]}
 
 
 def _gen_float_case(rng, strategy):
     """quarter-valued float scores (exact in float32) and half-valued thresholds: spec clauses only"""
-    case = _gen_case(rng, strategy, ties=True)
+    case = _gen_case(rng, strategy, ties=True, model=False)
     for sub in case["subs"]:
         sub["data"] = [x / 4.0 for x in sub["data"]]
     cfg = case["cfg"]
@@ -334,6 +484,102 @@ def _gen_float_case(rng, strategy):
     if cfg["hi"] is not None:
         cfg["hi"] = cfg["hi"] / 4.0 + 0.125
     case["float"] = True
+    return case
+
+
+def _add_presentation(rng, case):
+    """dimensions of the quantifier that do not change the mathematical case (so the model still applies): memory layout
+    and dtype of every submitted array, positional / keyword rotation, one reused score + rotation buffer, the way the
+    constructor is called"""
+    pres = {}
+    r = rng.random()
+    if r < 0.25:
+        pres["reuse"] = True
+        dt = str(rng.choice(["f4", "f4", "f8"]))
+        for sub in case["subs"]:
+            sub["dt"] = dt
+    else:
+        for sub in case["subs"]:
+            sub["lay"] = str(rng.choice(LAYOUTS, p=[0.2, 0.2, 0.15, 0.15, 0.1, 0.12, 0.08]))
+            sub["dt"] = str(rng.choice(["f4", "f8", "i4", "i8"], p=[0.45, 0.35, 0.1, 0.1])) if not case.get("float") \
+                else str(rng.choice(["f4", "f8"]))
+    if rng.random() < 0.5:
+        pres["kw"] = True
+    pres["ctor"] = str(rng.choice(["plain", "npint", "scan"]))
+    if pres["ctor"] == "scan" and rng.random() < 0.5:
+        pres["ts"] = True
+    case["pres"] = pres
+    return case
+
+
+SCALES = ((1e-9, 0.0), (1e-9, 0.0), (1e-3, 0.0), (0.25, 0.0), (1.0, 1000.0), (1e3, -5e4), (1e-9, 1.0), (1e-9, 1.0),
+          (1e-6, 1000.0), (3e-5, -2.0), (1e2, 7e3), (1e-7, 0.0))
+F8_ONLY = ((1e-9, 1.0), (1e-6, 1000.0))           # differences below float32 resolution at that offset
+
+
+def _gen_scaled_case(rng, strategy):
+    """float scores at an absolute scale between 1e-9 and 1e3 and offsets far from zero (float32 and float64;
+    (1e-9, 1.0) is resolved by float64 only, in float32 it is one big tie); thresholds that coincide with a score
+    (a tie at the bound), lie between two scores, or are exactly 0.  Spec clauses only."""
+    case = _gen_case(rng, strategy, ties=bool(rng.random() < 0.5), model=False, mixed=bool(rng.random() < 0.2))
+    scale, off = SCALES[int(rng.integers(0, len(SCALES)))]
+    dt = "f8" if (rng.random() < 0.5 or (scale, off) in F8_ONLY) else "f4"
+    r = rng.random()
+    if r < 0.45:                                     # a score window far more often than in the integer streams
+        kind = str(rng.choice(["lo", "lo", "hi", "both"]))
+        case["cfg"]["lo"] = 0 if kind in ("lo", "both") else None       # placeholders, replaced by thr() below
+        case["cfg"]["hi"] = 0 if kind in ("hi", "both") else None
+        if rng.random() < 0.6:
+            case["cfg"]["n"] = 1000
+    elif r < 0.7:
+        case["cfg"].update(lo=None, hi=None, mb=0)    # the global-maximum clause applies
+    typ = DTYPES[dt]
+    allv = []
+    for sub in case["subs"]:
+        v = (np.array(sub["data"], dtype=np.float64) * scale + off).astype(typ)
+        sub["data"] = [float(x) for x in v]
+        sub["dt"] = dt
+        allv += sub["data"]
+    cfg = case["cfg"]
+    vals = sorted(set(allv))
+
+    def thr():
+        r = rng.random()
+        if r < 0.45:
+            return vals[int(rng.integers(0, len(vals)))]                     # a score: tie at the bound
+        if r < 0.8 and len(vals) > 1:
+            i = int(rng.integers(0, len(vals) - 1))
+            return float(typ((vals[i] + vals[i + 1]) / 2))                   # between two scores
+        if r < 0.9:
+            return 0.0
+        return float(typ(vals[0] - abs(vals[0]) - scale))
+    if cfg["lo"] is not None:
+        cfg["lo"] = thr()
+    if cfg["hi"] is not None:
+        cfg["hi"] = thr()
+    if cfg["lo"] is not None and cfg["hi"] is not None and cfg["hi"] < cfg["lo"] and rng.random() < 0.7:
+        cfg["lo"], cfg["hi"] = cfg["hi"], cfg["lo"]
+    if cfg["lo"] is None and cfg["n"] > 1000:
+        cfg["n"] = 1000          # int64-max peaks only together with a minimum score (as scripts/postprocess.py does)
+    case["float"] = True
+    case["scale"] = [scale, off]
+    if rng.random() < 0.6:
+        _add_presentation(rng, case)
+        for sub in case["subs"]:
+            sub["dt"] = dt
+    return case
+
+
+def _gen_mask_case(rng):
+    """PeakCallerRecursiveMasking called with an explicit mask (the rotated-mask branch instead of the box)"""
+    case = _gen_case(rng, "recursive", ties=bool(rng.random() < 0.5), model=False)
+    nd = len(case["shape"])
+    md = max(case["cfg"]["md"], 1)
+    case["cfg"]["n"] = min(case["cfg"]["n"], 20)          # one rigid_transform of the mask per reported peak
+    for sub in case["subs"]:
+        sub["rot"] = 1                                    # identity: a proper rotation matrix for rigid_transform
+    case["pres"] = {"mask": [int(rng.choice([md, md + 1, 2 * md + 1, 1])) for _ in range(nd)], "kw": True,
+                    "rotation_space": bool(rng.random() < 0.4)}
     return case
 
 
@@ -354,6 +600,17 @@ def _check_history(ctx, case, model=True):
         ctx.count("hist:score-window")
     if cfg["mb"]:
         ctx.count("hist:margin")
+    pres = case.get("pres") or {}
+    for sub in case["subs"]:
+        ctx.count("hist:layout=" + ("reused-buffer" if pres.get("reuse") else sub.get("lay", "C")))
+        ctx.count("hist:dtype=" + sub.get("dt", "f4"))
+    ctx.count("hist:ctor=" + pres.get("ctor", "plain"))
+    if any(sub.get("shape") for sub in case["subs"]):
+        ctx.count("hist:extents-differ-between-submissions")
+    if case.get("scale"):
+        ctx.count("hist:scale=%g,offset=%g" % tuple(case["scale"]))
+    if pres.get("mask"):
+        ctx.count("hist:recursive-with-mask" + ("+rotation_space" if pres.get("rotation_space") else ""))
     raised = [s for s in states if isinstance(s, str)]
     inp = {"kind": "history", **case}
     if raised:
@@ -398,11 +655,26 @@ def _unit_greedy(ctx):
     n = ctx.budget(250, 4000)
     reqs, keep = [], []
     for _ in range(n):
-        d = int(rng.choice([2, 3]))
+        d = int(rng.choice([1, 2, 2, 3, 3, 4]))
         k = int(rng.integers(1, 14))
-        span = int(rng.choice([3, 5, 9]))
-        md = int(rng.choice([0, 1, 2, 3, 4]))
+        span = int(rng.choice([3, 5, 9, 14]))
+        md = int(rng.choice([0, 1, 2, 3, 4, 5, 10, 13]))
         coords = rng.integers(0, span, size=(k, d)).astype(np.int64)
+        r = rng.random()
+        if r < 0.25 and k > 1 and md >= 1:
+            # a pair at exactly the minimum distance (axis-aligned, or a Pythagorean triple): "closer than OR EQUAL"
+            i, j = (int(x) for x in rng.choice(k, size=2, replace=False))
+            step = np.zeros(d, dtype=np.int64)
+            trip = {5: (3, 4), 10: (6, 8), 13: (5, 12)}.get(md)
+            if trip is not None and d >= 2 and rng.random() < 0.7:
+                ax = rng.choice(d, size=2, replace=False)
+                step[ax[0]], step[ax[1]] = trip
+            else:
+                step[int(rng.integers(0, d))] = md
+            coords[j] = coords[i] + step * int(rng.choice([-1, 1]))
+            ctx.count("greedy:pair-at-exactly-the-distance")
+        if rng.random() < 0.3:
+            coords += np.array([int(x) for x in rng.choice([-7, -1, 0, 1000, 10 ** 6], size=d)], dtype=np.int64)   # frame of a merge offset
         got = [int(x) for x in filter_points_indices(coordinates=coords, min_distance=md, batch_dims=None)]
         keep.append((coords.tolist(), md, got))
         reqs.append(("c05.greedy", {"md": md, "coords": coords.tolist()}))
@@ -512,11 +784,26 @@ def _float_histories(ctx, n):
         ctx.count("hist:float-spec-only")
 
 
+def _scaled_histories(ctx, n):
+    rng = ctx.rng("hist-scaled")
+    for i in range(n):
+        _check_history(ctx, _gen_scaled_case(rng, STRATS[i % len(STRATS)]), model=False)
+        ctx.count("hist:scaled-spec-only")
+
+
+def _mask_histories(ctx, n):
+    rng = ctx.rng("hist-mask")
+    for i in range(n):
+        _check_history(ctx, _gen_mask_case(rng), model=False)
+
+
 def _histories(ctx, ties, n):
     rng = ctx.rng("hist-ties" if ties else "hist")
     for i in range(n):
         st = STRATS[i % len(STRATS)]
-        case = _gen_case(rng, st, ties)
+        case = _gen_case(rng, st, ties, mixed=(i % 4 >= 2))
+        if i % 2:
+            _add_presentation(rng, case)
         states = _check_history(ctx, case)
         if i < 2 * len(STRATS) and states and not isinstance(states[-1], str) and states[-1]:
             ctx.sample({"kind": "history", "strategy": st, "cfg": case["cfg"], "shape": case["shape"],
@@ -546,12 +833,16 @@ def _check_merge(ctx, mc):
     for part in mc["parts"]:
         if part is None:
             tuples.append(tuple(cls(**_cfg_kwargs(cfg))))
+        elif isinstance(part, dict) and "alias" in part:
+            tuples.append(tuples[part["alias"]])          # the very same partial result handed in twice
         elif isinstance(part, dict):
             # a candidate tuple given directly (e.g. the output of an earlier merge, or arbitrary peaks)
             pk = part["peaks"]
             tuples.append((np.array([p[0] for p in pk], dtype=np.int64).reshape(len(pk), nd),
                            np.stack([_rotmat(nd, p[1]) for p in pk]) if pk else np.zeros((0, nd, nd)),
-                           np.array([p[2] for p in pk], dtype=np.float32), np.full(len(pk), -1.0)))
+                           np.array([p[2] for p in pk], dtype=DTYPES[part.get("dt", "f4")]), np.full(len(pk), -1.0)))
+            if part.get("as_list"):
+                tuples[-1] = list(tuples[-1])
         else:
             try:
                 tuples.append(_real_caller_tuple({"strategy": mc["strategy"], "cfg": cfg, "shape": mc["shape"], "subs": part}))
@@ -567,7 +858,14 @@ def _check_merge(ctx, mc):
     before = [_canon(t) for t in tuples]
     kwargs = _cfg_kwargs(cfg)
     if mc["offset"] is not None:
-        kwargs["offset"] = np.array(mc["offset"])
+        kwargs["offset"] = np.array(mc["offset"], dtype={"i4": np.int32, "i8": np.int64}[mc.get("offset_dt", "i8")])
+    if mc.get("scan_kwargs"):
+        # what `scan` passes besides the caller's own arguments when it merges the jobs' results
+        kwargs.update(thread_safe=True, fourier_shift=np.array([-1] * nd), convolution_mode="same", targetshape=tuple(mc["shape"]),
+                      templateshape=tuple(2 for _ in range(nd)), convolution_shape=tuple(mc["shape"]), fast_shape=tuple(mc["shape"]),
+                      indices=None, shared_memory_handler=None, only_unique_rotations=True)
+        if mc["offset"] is None and mc.get("zero_offset"):
+            kwargs["offset"] = np.zeros(nd, dtype=int)
     outs, recs = [], []
     try:
         for _ in range(mc.get("repeat", 1)):
@@ -643,10 +941,15 @@ def _merges(ctx, n):
             k = int(rng.integers(0, 9))
             vals = rng.integers(-5, 6, size=k)
             raw = [[[int(x) for x in rng.integers(-3, 8, size=len(shape))], int(rng.integers(1, 9)), int(v)] for v in vals]
-            parts.insert(int(rng.integers(0, len(parts) + 1)), {"peaks": raw})           # arbitrary candidate list
+            parts.insert(int(rng.integers(0, len(parts) + 1)), {"peaks": raw, "dt": str(rng.choice(["f4", "f8", "i8"])),
+                                                                 "as_list": bool(rng.random() < 0.5)})   # arbitrary candidate list
             ctx.count("merge:raw-part")
+        if parts and rng.random() < 0.15:
+            parts.append({"alias": int(rng.integers(0, len(parts)))})
+            ctx.count("merge:same-part-twice")
         mc = {"strategy": st, "cfg": cfg, "shape": shape, "parts": parts, "offset": offset,
-              "repeat": 2 if rng.random() < 0.5 else 1, "ties": ties}
+              "repeat": 2 if rng.random() < 0.5 else 1, "ties": ties, "offset_dt": str(rng.choice(["i8", "i4"])),
+              "scan_kwargs": bool(rng.random() < 0.4), "zero_offset": bool(rng.random() < 0.5)}
         out = _check_merge(ctx, mc)
         if out and not isinstance(out, str):
             prev = (shape, out)
@@ -685,8 +988,25 @@ def _check_postprocess(ctx, pp):
     pc = PeakCallerSort(number_of_peaks=size, min_distance=0)
     pc(raw.copy(), _rotmat(nd, 1))
     before = _canon(tuple(pc))
-    args = dict(fast_shape=tuple(fast), targetshape=tuple(tgt), templateshape=tuple(tpl), convolution_shape=tuple(conv),
-                fourier_shift=None if pp.get("noshift") else tuple(shift), convolution_mode=None if mode == "full" and pp.get("nomode") else mode)
+    kind = pp.get("argkind", "tuple")
+    conv_ = {"tuple": tuple, "list": list, "np64": lambda x: np.array(x, dtype=np.int64),
+             "np32": lambda x: np.array(x, dtype=np.int32)}[kind]
+    args = dict(fast_shape=conv_(fast), targetshape=conv_(tgt), templateshape=conv_(tpl), convolution_shape=conv_(conv),
+                fourier_shift=None if pp.get("noshift") else conv_(shift), convolution_mode=None if mode == "full" and pp.get("nomode") else mode)
+    if pp.get("scan_kwargs"):
+        # the other keywords `scan` hands to every callback's _postprocess
+        args.update(offset=np.zeros(nd, dtype=int), thread_safe=False, indices=None, shared_memory_handler=None,
+                    only_unique_rotations=True, number_of_peaks=size, min_distance=0)
+    ctx.count("postprocess:args=" + kind + ("+scan-kwargs" if pp.get("scan_kwargs") else ""))
+    # a caller that stored nothing (no call at all / every candidate outside the score window) goes through untouched
+    for empty in (PeakCallerSort(number_of_peaks=3, min_distance=1), PeakCallerSort(number_of_peaks=3, min_distance=1, minimum_score=size + 5.0)):
+        try:
+            empty(raw.copy(), _rotmat(nd, 1)) if empty.minimum_score is not None else None
+            e_out = _canon(tuple(empty._postprocess(**args)))
+        except Exception as e:
+            e_out = "raised:" + type(e).__name__
+        ctx.spec("_postprocess of a caller that holds no peak reports no peak (and does not raise)", inp, e_out == [],
+                 e_out, key="_postprocess:empty-caller")
     try:
         got = _canon(tuple(pc._postprocess(**args)))
     except Exception as e:
@@ -747,6 +1067,9 @@ def _postprocess(ctx, n):
                 continue
         if rng.random() < 0.08:
             pp["noshift"] = True
+        pp["argkind"] = str(rng.choice(["tuple", "tuple", "list", "np64", "np32"]))
+        if rng.random() < 0.4:
+            pp["scan_kwargs"] = True
         _check_postprocess(ctx, pp)
         if i < 2:
             ctx.sample({"kind": "postprocess", **pp}, limit=8)
@@ -754,7 +1077,7 @@ def _postprocess(ctx, n):
 
 # --- end to end -------------------------------------------------------------
 
-def _scan(target, template, cb, args, pad, splits, pad_edges, rots, score="CC"):
+def _scan(target, template, cb, args, pad, splits, pad_edges, rots, score="CC", jobs=1, schedule=(1, 1)):
     from tme.matching_data import MatchingData
     from tme.matching_exhaustive import scan, scan_subsets, MATCHING_EXHAUSTIVE_REGISTER
     with contextlib.redirect_stdout(io.StringIO()), warnings.catch_warnings():
@@ -762,9 +1085,9 @@ def _scan(target, template, cb, args, pad, splits, pad_edges, rots, score="CC"):
         md = MatchingData(target=target.copy(), template=template.copy(), rotations=rots.copy())
         setup, fn = MATCHING_EXHAUSTIVE_REGISTER[score]
         if not splits:
-            return scan(md, matching_setup=setup, matching_score=fn, n_jobs=1, callback_class=cb,
+            return scan(md, matching_setup=setup, matching_score=fn, n_jobs=int(jobs), callback_class=cb,
                         callback_class_args=args, pad_fourier=pad)
-        return scan_subsets(md, matching_setup=setup, matching_score=fn, job_schedule=(1, 1), callback_class=cb,
+        return scan_subsets(md, matching_setup=setup, matching_score=fn, job_schedule=tuple(int(x) for x in schedule), callback_class=cb,
                             callback_class_args=args, pad_fourier=pad, target_splits=splits, pad_target_edges=pad_edges)
 
 
@@ -794,23 +1117,28 @@ def _check_e2e(ctx, ec):
         rots = np.stack([np.eye(nd), r90, r90 @ r90][:ec["nrot"]])
     splits = {int(k): v for k, v in (ec.get("splits") or {}).items()}
     inp = {"kind": "e2e", **ec}
+    jobs, schedule = int(ec.get("jobs", 1)), tuple(ec.get("schedule") or (1, 1))
     try:
         ref = _scan(target, template, MaxScoreOverRotations, {"score_threshold": -1e30}, ec["pad"], splits, ec["pad_edges"], rots)
         smap = np.array(ref[0])
+        # the score map of every single rotation of the same run (serial reference)
+        smaps = [np.array(_scan(target, template, MaxScoreOverRotations, {"score_threshold": -1e30}, ec["pad"], splits,
+                                ec["pad_edges"], rots[i:i + 1])[0]) for i in range(len(rots))] if len(rots) > 1 else [smap]
     except Exception as e:
         ctx.note("e2e reference run failed: %r" % (e,))
         ctx.count("e2e:reference-failed")
         return
     st, cfg = ec["strategy"], ec["cfg"]
     try:
-        out = _scan(target, template, classes[st], _cfg_kwargs(cfg), ec["pad"], splits, ec["pad_edges"], rots)
+        out = _scan(target, template, classes[st], _cfg_kwargs(cfg), ec["pad"], splits, ec["pad_edges"], rots,
+                    jobs=jobs, schedule=schedule)
     except Exception as e:
         ctx.spec("template-matching run with a peak caller returns", inp, False, repr(e)[:300], key=f"e2e:{st}:raises")
         return
     if out is None or len(out) == 0:
-        pos, sc = np.zeros((0, nd), int), np.zeros(0)
+        pos, sc, prot = np.zeros((0, nd), int), np.zeros(0), np.zeros((0, nd, nd))
     else:
-        pos, sc = np.asarray(out[0]), np.asarray(out[2], dtype=np.float64)
+        pos, sc, prot = np.asarray(out[0]), np.asarray(out[2], dtype=np.float64), np.asarray(out[1], dtype=np.float64)
     peaks = [[[int(x) for x in p], 0, float(s)] for p, s in zip(pos, sc)]
     tol = 1e-4 * max(1.0, float(np.abs(smap).max()))
     inb = all(all(0 <= x < s for x, s in zip(p[0], smap.shape)) for p in peaks)
@@ -826,13 +1154,34 @@ def _check_e2e(ctx, ec):
             ok = all(p[2] <= float(smap[tuple(p[0])]) + tol for p in peaks)
         ctx.spec("peak scores agree with the score map of the same run", inp, ok,
                  [(p, float(smap[tuple(p[0])])) for p in peaks[:6]], key="e2e:score-map")
+        # score AND rotation: the reported rotation is one of the run's rotations and the reported score is that
+        # rotation's score at the reported translation
+        which = [[i for i in range(len(rots)) if np.allclose(prot[j], rots[i], atol=1e-6)] for j in range(len(peaks))]
+        okr = all(which)
+        ctx.spec("the rotation reported with a peak is one of the rotations of the run", inp, okr,
+                 {"n_peaks": len(peaks)}, key="e2e:rotation-unknown")
+        if okr and all(m.shape == smap.shape for m in smaps):
+            # target tiles of equal length overlap when the split does not divide the extent: a translation in the
+            # overlap is scored (and may be reported) by both tiles, the map keeps the larger value -> "<=" for split runs
+            if splits:
+                bad = [(peaks[j], w, [float(smaps[i][tuple(peaks[j][0])]) for i in w]) for j, w in enumerate(which)
+                       if not any(peaks[j][2] <= float(smaps[i][tuple(peaks[j][0])]) + tol for i in w)]
+            else:
+                bad = [(peaks[j], w, [float(smaps[i][tuple(peaks[j][0])]) for i in w]) for j, w in enumerate(which)
+                       if not any(abs(peaks[j][2] - float(smaps[i][tuple(peaks[j][0])])) <= tol for i in w)]
+            ctx.spec("the reported score is the score of the reported rotation at the reported translation", inp,
+                     not bad, bad[:4], key="e2e:score-of-rotation")
+        lo, hi = cfg["lo"], cfg["hi"]
+        ctx.spec("reported scores lie in the configured score window", inp,
+                 all((lo is None or p[2] >= lo - tol) and (hi is None or p[2] <= hi + tol) for p in peaks), peaks[:8],
+                 key="e2e:window")
         if ec.get("complete"):
             # number_of_peaks = everything, min_distance = 0: the peak list must be the whole score map
             have = {}
             for p in peaks:
                 have[tuple(p[0])] = max(p[2], have.get(tuple(p[0]), -np.inf))
             missing = [k for k in np.ndindex(*smap.shape) if k not in have]
-            wrong = [k for k in have if abs(have[k] - float(smap[k])) > tol] if ec["nrot"] == 1 else []
+            wrong = [k for k in have if abs(have[k] - float(smap[k])) > tol]
             c = "ok"
             if missing or wrong:
                 c = "first-index" if any(0 in k for k in missing) else "last-index" if any(any(x == s - 1 for x, s in zip(k, smap.shape)) for k in missing) else "missing" if missing else "wrong-voxel"
@@ -854,7 +1203,10 @@ def _check_e2e(ctx, ec):
     ctx.count("e2e:" + st)
     ctx.count("e2e:" + ("pad_fourier" if ec["pad"] else "no-pad_fourier"))
     ctx.count("e2e:" + ("splits" if splits else "unsplit"))
-    ctx.distinct(("e2e", st, tuple(n), tuple(m), ec["pad"], json.dumps(ec.get("splits")), ec["nrot"], ec.get("plant"), ec["seed"]))
+    ctx.count("e2e:jobs=%d,schedule=%s,rotations=%d" % (jobs, "x".join(map(str, schedule)), ec["nrot"]))
+    if cfg["lo"] is not None or cfg["hi"] is not None:
+        ctx.count("e2e:score-window")
+    ctx.distinct(("e2e", st, tuple(n), tuple(m), ec["pad"], json.dumps(ec.get("splits")), ec["nrot"], ec.get("plant"), ec["seed"], jobs, schedule))
     return peaks
 
 
@@ -886,6 +1238,43 @@ def _e2e(ctx, n):
             ctx.sample({"kind": "e2e", **{k: v for k, v in ec.items() if k != "seed"}, "peaks": pk[:3]}, limit=8)
 
 
+def _e2e_jobs(ctx, n):
+    """the same end-to-end clauses with partial results that are produced by several jobs and merged: rotations split
+    over n_jobs (also n_jobs that do not divide / exceed the number of rotations), target splits that do not divide the
+    extent or cut two axes, job schedules (k,1) / (1,k), a configured score window"""
+    rng = ctx.rng("e2e-jobs")
+    for i in range(n):
+        nd = 2 if rng.random() < 0.75 else 3
+        tgt = [int(rng.integers(7, 17 if nd == 2 else 11)) for _ in range(nd)]
+        tpl = [min(a - 1, int(rng.integers(2, 5))) for a in tgt]
+        st = STRATS[int(rng.integers(0, len(STRATS)))]
+        complete = (i % 4 in (0, 3))
+        if complete:
+            st = "sort"
+            cfg = {"n": 10 ** 6, "md": 0, "mb": 0, "lo": None, "hi": None}
+        else:
+            cfg = {"n": int(rng.choice([1, 3, 10, 1000])), "md": int(rng.choice([1, 2, 3])), "mb": 0, "lo": None, "hi": None}
+            r = rng.random()
+            # CC scores of 0..3 x 1..4 data are non-negative integers up to a few hundred
+            if r < 0.3:
+                cfg["lo"] = float(rng.choice([0.0, 20.0, 45.0]))
+            elif r < 0.5:
+                cfg["hi"] = float(rng.choice([30.0, 60.0]))
+        nrot = int(rng.choice([1, 2, 3, 3]))
+        ec = {"n": tgt, "m": tpl, "pad": bool(rng.random() < 0.5), "splits": None, "pad_edges": False, "nrot": nrot,
+              "strategy": st, "cfg": cfg, "seed": int(rng.integers(0, 2 ** 31)), "plant": None, "complete": complete}
+        if i % 2 == 0:
+            ec["jobs"] = int(rng.choice([2, 2, 3]))                    # rotations over jobs; may exceed / not divide nrot
+        else:
+            axes = [int(rng.integers(0, nd))]
+            if rng.random() < 0.3:
+                axes = sorted(set(axes + [int(rng.integers(0, nd))]))
+            ec["splits"] = {str(ax): int(rng.choice([2, 3])) for ax in axes}
+            ec["pad_edges"] = bool(rng.random() < 0.7)
+            ec["schedule"] = [int(x) for x in ((2, 1), (1, 2), (1, 1), (3, 1))[int(rng.integers(0, 4))]]
+        _check_e2e(ctx, ec)
+
+
 # --------------------------------------------------------------------------- entry points
 
 def _dispatch(ctx, inp, model=True):
@@ -893,15 +1282,21 @@ def _dispatch(ctx, inp, model=True):
     if k == "history":
         case = {x: inp[x] for x in ("strategy", "cfg", "shape", "subs")}
         case["ties"] = inp.get("ties", True)
-        if inp.get("float"):
-            case["float"] = True
-        _check_history(ctx, case, model=model and not inp.get("float"))
+        for x in ("float", "pres", "scale"):
+            if inp.get(x):
+                case[x] = inp[x]
+        _check_history(ctx, case, model=model and not inp.get("float") and not (inp.get("pres") or {}).get("mask"))
     elif k == "merge":
-        _check_merge(ctx, {x: inp[x] for x in ("strategy", "cfg", "shape", "parts", "offset") } | {"repeat": inp.get("repeat", 1), "ties": inp.get("ties", False)})
+        _check_merge(ctx, {x: inp[x] for x in ("strategy", "cfg", "shape", "parts", "offset")} | {"repeat": inp.get("repeat", 1), "ties": inp.get("ties", False)}
+                     | {x: inp[x] for x in ("offset_dt", "scan_kwargs", "zero_offset") if x in inp})
     elif k == "postprocess":
         _check_postprocess(ctx, {x: v for x, v in inp.items() if x != "kind"})
     elif k == "e2e":
         _check_e2e(ctx, {x: v for x, v in inp.items() if x != "kind"})
+    elif k == "badcfg":
+        _bad_configs(ctx)
+    elif k == "large":
+        _large_candidate_sets(ctx, ctx.budget(4, 16))
     elif k in ("greedy", "topk", "tiles", "callpeaks"):
         _unit_greedy(ctx) if k == "greedy" else _unit_topk(ctx) if k == "topk" else _unit_tiles(ctx) if k == "tiles" else _unit_callpeaks(ctx)
 
@@ -961,9 +1356,43 @@ def _large_candidate_sets(ctx, n):
         ctx.distinct(("large", strategy, side, md))
 
 
+def _bad_configs(ctx):
+    """configurations outside the domain (number_of_peaks <= 0, negative distances): the constructor has to reject them
+    with ValueError - if it accepts one, the clause 'at most the requested number are reported' is evaluated on a run"""
+    rng = ctx.rng("badcfg")
+    for st, cls in _classes().items():
+        for bad in ({"n": 0}, {"n": -2}, {"md": -1}, {"mb": -1}, {"n": np.int64(0)}):
+            cfg = {"n": 3, "md": 1, "mb": 0, "lo": None, "hi": None, **bad}
+            shape = [5, 6]
+            data = [int(x) for x in rng.permutation(30)]
+            jcfg = {k: (int(v) if isinstance(v, (int, np.integer)) else v) for k, v in cfg.items()}
+            inp = {"kind": "badcfg", "strategy": st, "cfg": jcfg, "shape": shape, "data": data}
+            ctx.count("badcfg:" + ",".join(bad))
+            try:
+                pc = cls(**_cfg_kwargs(cfg))
+            except ValueError:
+                ctx.count("badcfg:rejected")
+                continue
+            except Exception as e:
+                ctx.spec("a configuration outside the domain is rejected with ValueError", inp, False, type(e).__name__,
+                         key=f"{st}:constructor:{type(e).__name__}")
+                continue
+            try:
+                with warnings.catch_warnings():
+                    warnings.simplefilter("ignore")
+                    pc(np.array(data, dtype=np.float32).reshape(shape), _rotmat(2, 1))
+                got = _canon(tuple(pc))
+            except Exception as e:
+                got = "raised:" + type(e).__name__
+            ok = isinstance(got, list) and len(got) <= max(int(cfg["n"]), 0) and "n" in bad
+            ctx.spec("a caller built with number_of_peaks <= 0 / a negative distance is rejected, or reports at most "
+                     "number_of_peaks peaks", inp, ok, got if isinstance(got, str) else got[:6], key=f"{st}:bad-config-accepted")
+
+
 def run(ctx):
     _corpus(ctx)
     _large_candidate_sets(ctx, ctx.budget(4, 16))
+    _bad_configs(ctx)
     _unit_tiles(ctx)
     _unit_greedy(ctx)
     _unit_topk(ctx)
@@ -971,9 +1400,12 @@ def run(ctx):
     _histories(ctx, ties=False, n=ctx.budget(300, 5000))
     _histories(ctx, ties=True, n=ctx.budget(300, 5000))
     _float_histories(ctx, ctx.budget(200, 3000))
+    _scaled_histories(ctx, ctx.budget(400, 5000))
+    _mask_histories(ctx, ctx.budget(50, 500))
     _merges(ctx, ctx.budget(120, 2000))
     _postprocess(ctx, ctx.budget(120, 1500))
     _e2e(ctx, ctx.budget(18, 150))
+    _e2e_jobs(ctx, ctx.budget(10, 60))
 
 
 def search(ctx):
@@ -987,7 +1419,18 @@ def search(ctx):
     rng = ctx.rng("search")
     for i in range(ctx.budget(1500, 8000)):
         st = STRATS[i % len(STRATS)]
-        case = _gen_case(rng, st, ties=bool(i % 2), small=True) if i % 5 else _gen_float_case(rng, st)
+        if i % 5 == 0:
+            case = _gen_float_case(rng, st)
+        elif i % 5 == 1:
+            case = _gen_scaled_case(rng, st)
+        elif i % 5 == 2:
+            case = _add_presentation(rng, _gen_case(rng, st, ties=bool(i % 2), small=True, model=False, mixed=bool(i % 3 == 0)))
+        elif i % 35 == 3:
+            case = _gen_mask_case(rng)
+        else:
+            case = _gen_case(rng, st, ties=bool(i % 2), small=True, model=False, mixed=bool(i % 3 == 0))
+            if case["cfg"]["mb"] == 0 and i % 2:
+                case["cfg"]["mb"] = int(rng.choice([1, 2]))
         try:
             _check_history(ctx, case, model=False)
         except Exception:
@@ -1000,6 +1443,7 @@ def search(ctx):
             ctx.count("search:crashed")
     _merges(ctx, ctx.budget(150, 600))
     _e2e(ctx, ctx.budget(12, 40))
+    _e2e_jobs(ctx, ctx.budget(6, 20))
 
 
 def replay(ctx, rec):
